@@ -1,6 +1,6 @@
 """C14 — a group contains exactly the nodes its filters select, each with its annotation."""
-import json, os
-from verifkit import read_lines
+import json, os, re
+from verifkit import read_lines, REPO, VERIF
 
 REQUIRED = [
     "DaeVerif.C14.Props.members_exact",
@@ -18,51 +18,238 @@ REQUIRED = [
     "DaeVerif.C14.Props.invalid_always_reported",
     "DaeVerif.C14.Props.error_iff_invalid",
     "DaeVerif.C14.Props.error_names_invalid_item",
-    "DaeVerif.C14.Props.policy_ok_iff",
-    "DaeVerif.C14.Props.group_error_iff",
+    "DaeVerif.C14.Props.parsePolicy_characterised",
+    "DaeVerif.C14.Props.documented_policy_accepted",
+    "DaeVerif.C14.Props.accepted_policy_documented_or_lenient",
+    "DaeVerif.C14.Props.lenient_policy_means_plain",
+    "DaeVerif.C14.Props.group_built_iff",
+    "DaeVerif.C14.Props.group_members_are_meaning",
+    "DaeVerif.C14.Props.fixed_out_of_range_builds",
     "DaeVerif.C14.Props.fixed_selects_ith_member",
+    "DaeVerif.C14.Props.selection_local",
 ]
+
+# discrimination counters that must be non-zero in every tier (a generator edit that makes one of
+# them 0 silently blinds the check against a whole class of defects)
+GUARD_OUTBOUND = [
+    "discrim.member_with_nonzero_annotation", "discrim.first_hit_is_not_line0",
+    "discrim.member_satisfies_2_or_more_lines", "discrim.first_line_wins_observable",
+    "discrim.line_major_order_differs_from_pool_order",
+    "discrim.zero_first_then_nonzero_annotation_on_hit_line",
+    "discrim.two_distinct_nonzero_latencies_on_hit_line", "discrim.same_name_different_verdict",
+    "discrim.negated_condition_values_disagree", "discrim.line_without_conditions",
+    "discrim.large_pool_65_plus", "discrim.invalid_item_NOT_reached_by_per_node_evaluation",
+    "discrim.regexopt.Multiline_would_change_members", "discrim.regexopt.Singleline_would_change_members",
+    "discrim.regexopt.IgnorePatternWhitespace_would_change_members",
+    "discrim.regexopt.IgnoreCase_would_change_members", "discrim.regexopt.RE2_would_change_members",
+    "discrim.regexopt.ECMAScript_would_change_members",
+    "def.with_two_invalid_items", "parser.definition_compared_with_what_was_written",
+]
+GUARD_CTL = [
+    "discrim.override_group_built_nonempty", "discrim.large_pool_group_built",
+    "discrim.multi_subscription_group_built", "group.members_are_override_clones",
+    "group.fixed_selected", "group.fixed_range", "pool.with_unparsable_link",
+]
+
+
+# --------------------------------------------------------------------------- region extraction
+
+def _scan_block_end(src, open_idx):
+    """index just after the brace that closes the one at open_idx (strings / comments skipped)."""
+    depth, i, n = 0, open_idx, len(src)
+    while i < n:
+        c = src[i]
+        if src.startswith("//", i):
+            i = src.find("\n", i)
+            if i < 0:
+                return -1
+            continue
+        if src.startswith("/*", i):
+            i = src.find("*/", i) + 2
+            continue
+        if c in "\"'`":
+            q, i = c, i + 1
+            while i < n and src[i] != q:
+                if src[i] == "\\" and q != "`":
+                    i += 1
+                i += 1
+            i += 1
+            continue
+        if c == "{":
+            depth += 1
+        elif c == "}":
+            depth -= 1
+            if depth == 0:
+                return i + 1
+        i += 1
+    return -1
+
+
+def extract_group_region(ctx):
+    """Write zz_verif_c14_region.go: the verbatim pool+group region of NewControlPlane from /repo's
+    CURRENT control_plane.go, wrapped into a function.  Returns the path or None (markers gone)."""
+    path = os.path.join(REPO, "control", "control_plane.go")
+    src = open(path, encoding="utf-8").read()
+    start_pat = "dialerSet := outbound.NewDialerSetFromLinksContext("
+    a = src.find(start_pat)
+    if a < 0 or src.find(start_pat, a + 1) >= 0:
+        return None, "start marker `%s` not found exactly once" % start_pat
+    a = src.rfind("\n", 0, a) + 1
+    m = re.compile(r"for\s+_,\s*group\s*:=\s*range\s+groups\s*\{").search(src, a)
+    if not m:
+        return None, "loop `for _, group := range groups {` not found after the pool construction"
+    if m.start() - a > 1500:
+        return None, "group loop no longer follows the pool construction"
+    b = _scan_block_end(src, m.end() - 1)
+    if b < 0:
+        return None, "could not find the end of the group loop"
+    region = src[a:b].replace("dialerSet := outbound.", "dialerSet = outbound.", 1)
+    # imports of control_plane.go that the region uses
+    imp = re.search(r"import\s*\((.*?)\n\)", src, re.S)
+    imports = {}
+    for line in (imp.group(1).split("\n") if imp else []):
+        mm = re.match(r'\s*(?:(\w+)\s+)?"([^"]+)"', line)
+        if not mm:
+            continue
+        alias, p = mm.group(1), mm.group(2)
+        ident = alias or re.sub(r"^v\d+$", "", p.split("/")[-1]) or p.split("/")[-2]
+        if re.search(r"\b%s\." % re.escape(ident), region):
+            imports[p] = alias
+    for p in ("github.com/daeuniverse/dae/component/outbound", "github.com/daeuniverse/dae/component/outbound/dialer",
+              "github.com/daeuniverse/dae/config", "github.com/sirupsen/logrus"):
+        imports.setdefault(p, None)
+    gen = os.path.join(ctx.out, "c14_region.go")
+    with open(gen, "w") as f:
+        f.write("// Code generated by /verif/checks/c14.py from %s (bytes %d..%d). DO NOT EDIT.\n" % (path, a, b))
+        f.write("package control\n\nimport (\n")
+        for p, alias in sorted(imports.items()):
+            f.write('\t%s"%s"\n' % ((alias + " ") if alias else "", p))
+        f.write(""")
+
+type c14Region struct {
+	DialerSet  *outbound.DialerSet
+	Outbounds  []*outbound.DialerGroup // [0], [1] stand for direct / block
+	DeferFuncs []func() error
+}
+
+// stands for *controlPlaneCore: the kernel connectivity callback is C16's subject
+type c14StubCore struct{}
+
+func (c14StubCore) outboundAliveChangeCallback(uint8, bool) func(bool, *dialer.NetworkType, bool) {
+	return func(bool, *dialer.NetworkType, bool) {}
+}
+
+func c14RealGroupRegion(option *dialer.GlobalOption, tagToNodeList map[string][]string, groups []config.Group, global *config.Global, log *logrus.Logger) (res *c14Region, err error) {
+	var deferFuncs []func() error
+	var dialerSet *outbound.DialerSet
+	outbounds := []*outbound.DialerGroup{nil, nil}
+	core := c14StubCore{}
+	disableKernelAliveCallback := true
+	_, _, _, _ = core, disableKernelAliveCallback, global, log
+	defer func() {
+		if err != nil {
+			res = &c14Region{DialerSet: dialerSet, DeferFuncs: deferFuncs}
+		}
+	}()
+	// ---------------------------------------------------------------- verbatim from control_plane.go
+""")
+        f.write(region)
+        f.write("""
+	// ---------------------------------------------------------------- end of verbatim region
+	return &c14Region{DialerSet: dialerSet, Outbounds: outbounds, DeferFuncs: deferFuncs}, nil
+}
+""")
+    return gen, "bytes %d..%d of control_plane.go (%d lines)" % (a, b, region.count("\n") + 1)
+
+
+# --------------------------------------------------------------------------- comparison
+
+def canon(line):
+    """The property asks for "a configuration error", not for a particular wording, class or
+    precedence (policy before filter, line j before annotation j): every error answer is `ERR`."""
+    if line.startswith(("err ", "perr ", "ferr ", "gerr ")):
+        return "ERR"
+    return line
+
+
+def side_dict(s):
+    return dict(kv.split("=", 1) for kv in s.split()[1:] if "=" in kv)
+
+
+def compare_stream(ctx, name, report, stricter):
+    ops, impl, model, side = (os.path.join(ctx.out, f"{name}.{e}") for e in ("ops", "impl", "model", "side"))
+    if not ctx.driver("c14drv", ops, model):
+        ctx.proof_failures.append(f"model driver c14drv failed to run on {name}")
+    mism = ctx.diff_streams(ops, impl, model, name, canon=canon)
+    o, i, mo, s = read_lines(ops), read_lines(impl), read_lines(model), read_lines(side)
+    cls_same = cls_diff = 0
+    for a, b in zip(i, mo):
+        if canon(a) == "ERR" and canon(b) == "ERR":
+            if a == b:
+                cls_same += 1
+            else:
+                cls_diff += 1
+    ctx.cov.setdefault("error_class_agreement", {})[name] = {"same_text": cls_same, "other_class_or_wording": cls_diff}
+    real = []
+    for ln, op, im, mdl in mism:
+        sd = side_dict(s[ln - 1]) if 0 < ln <= len(s) else {}
+        # the implementation is STRICTER than the model in a zone where the model is knowingly
+        # lenient (`!min(7)`; fixed(i) out of range accepted at configuration time): towards the
+        # property, not a violation — counted and shown.
+        if canon(im) == "ERR" and mdl.startswith("ok pol=") and (
+                sd.get("lenient") == "true" or mdl.endswith(("sel=range", "sel=empty"))):
+            stricter.append((name, ln))
+            continue
+        real.append((ln, op, im, mdl))
+    for ln, op, im, mdl in real[:6]:
+        report("model", f"implementation differs from proved model ({name} line {ln}): impl `{im[:200]}` model `{mdl[:200]}`",
+               {"stream": name, "line": ln, "op": op, "impl": im, "model": mdl,
+                "replay": "VERIF_SEED=%d ./check C14 %s" % (ctx.seed, ctx.tier)})
+    return o, i, s
 
 
 def run(ctx):
     ctx.trusted += [
-        "regexp2.Compile/MatchString and time.ParseDuration are oracles of the model (library code, evaluated by the harness independently of the filter code and passed to the driver as tables)",
-        "the 40-line group loop of control.NewControlPlane (policy -> FilterAndAnnotate -> NewDialerGroup) is replicated in the harness (package outbound), not executed in place; ParseGroupOverrideOption cloning is not covered",
-        "text -> []*Function is the real config parser's job (C17); C14's model starts at config.Group",
+        "regexp2.Compile/MatchString and time.ParseDuration are oracles of the model (library code, evaluated by the harness independently of the filter code and passed to the driver as tables); the option word passed to Compile is visible to the tie only (discrimination counters discrim.regexopt.*)",
+        "the pool+group region of control.NewControlPlane is executed VERBATIM (extracted by checks/c14.py from the current control_plane.go into a function of package control; *controlPlaneCore replaced by a stub whose outboundAliveChangeCallback does nothing); the rest of NewControlPlane is not run",
+        "link -> (name, dialer) is the outbound library's job; the harness only checks that names/tags written as links come back unchanged",
+        "text -> []*Function is the real config parser's job (C17); C14 compares what it wrote with what the parser delivered (valid UTF-8 definitions) and models from config.Group on",
     ]
     ctx.prove(["DaeVerif.C14.Props"], ["DaeVerif.C14.Props"], ["DaeVerif/C14/*.lean"], extra_targets=["c14drv"])
     ctx.required_theorems(REQUIRED)
 
-    binp = ctx.go_test_build("component/outbound", ["component/outbound/c14_test.go"], "c14")
-    if not binp:
-        return 2
-    rc, out = ctx.run_harness(binp, "TestVerifC14")
-    ops, impl, model, side = (os.path.join(ctx.out, "c14." + e) for e in ("ops", "impl", "model", "side"))
-    if rc != 0 or not os.path.exists(ops):
-        ctx.say("HARNESS-FAILED", out[-3000:])
-        return 2
-    if not ctx.driver("c14drv", ops, model):
-        ctx.proof_failures.append("model driver c14drv failed to run")
-    mism = ctx.diff_streams(ops, impl, model, "c14")
-
-    # property-level oracles on the implementation side (independent of the Lean model):
-    #  (1) a definition is rejected iff it is invalid (documented inputs/keys, compiling regexes,
-    #      well-formed annotations), whatever the pool — the defect fixed by 367c759 was exactly a
-    #      violation of "invalid => rejected";
-    #  (2) when accepted, the members are those of the Go-side declarative oracle (spec=...).
-    o, i, s = read_lines(ops), read_lines(impl), read_lines(side)
-    distinct = set()
-    n_fa = n_invalid = n_crash = 0
     budget = {}
 
     def report(kind, what, obj):   # at most 4 replay files per kind of disagreement
         budget[kind] = budget.get(kind, 0) + 1
         if budget[kind] <= 4:
             ctx.report(what, obj)
+
+    stricter = []
+    hov = os.path.join(VERIF, "harness", "overlay")
+
+    # ------------------------------------------------------------------ A. package outbound
+    binp = ctx.go_test_build("component/outbound",
+                             ["component/outbound/c14_test.go", "component/outbound/c14_gen_test.go"], "c14")
+    if not binp:
+        return 2
+    rc, out = ctx.run_harness(binp, "TestVerifC14")
+    if rc != 0 or not os.path.exists(os.path.join(ctx.out, "c14.ops")):
+        ctx.say("HARNESS-FAILED", out[-3000:])
+        return 2
+    o, i, s = compare_stream(ctx, "c14", report, stricter)
+
+    # property-level oracles on the implementation side (independent of the Lean model):
+    #  (1) a definition is rejected iff it is invalid (documented inputs/keys, compiling regexes,
+    #      well-formed annotations), whatever the pool — the defect fixed by 367c759 was exactly a
+    #      violation of "invalid => rejected";
+    #  (2) when accepted, the members are those of the Go-side declarative oracle (spec=...);
+    #  (3) the definition the real parser delivered is the one that was written.
+    distinct = set()
+    n_fa = n_invalid = 0
     for k, (op, im) in enumerate(zip(o, i)):
-        sd = dict(kv.split("=") for kv in s[k].split()[1:]) if k < len(s) else {}
+        sd = side_dict(s[k]) if k < len(s) else {}
         if im.startswith("crash:"):
-            n_crash += 1
             report("crash", f"real code panicked: {im[:200]}", {"op": op, "impl": im})
             continue
         if not op.startswith("fa "):
@@ -73,7 +260,10 @@ def run(ctx):
         lens_ok = len(set(sd.get("lens", "0/0").split("/"))) == 1
         if not valid:
             n_invalid += 1
-        if lens_ok and valid and im.startswith("err "):
+        if sd.get("parserchanged", "-") != "-":
+            report("parser", "config parser delivered another definition than the one written: "
+                   + bytes.fromhex(sd["parserchanged"][1:]).decode("utf-8", "replace"), {"op": op, "impl": im})
+        if lens_ok and valid and canon(im) == "ERR":
             report("valid-rejected", f"valid group definition rejected by the implementation: {im[:200]}", {"op": op, "impl": im})
         if lens_ok and not valid and im.startswith("ok "):
             report("invalid-accepted", "invalid filter/annotation accepted silently by the implementation (selection: %s)" % im[:200],
@@ -82,39 +272,83 @@ def run(ctx):
             f = im.split()
             if len(f) != 3 or "spec=" + f[1] != f[2]:
                 report("spec", f"members differ from what the definition means (Go-side oracle): {im[:300]}", {"op": op, "impl": im})
-    for ln, op, im, mo in mism[:6]:
-        ctx.report(f"implementation differs from proved model at line {ln}: impl `{im[:200]}` model `{mo[:200]}`",
-                   {"stream": "c14", "line": ln, "op": op, "impl": im, "model": mo,
-                    "replay": "VERIF_SEED=%d ./check C14 %s" % (ctx.seed, ctx.tier)})
-    # the group loop of control.NewControlPlane cannot be executed in isolation (it sits in the middle
-    # of the BPF-loading constructor); the harness replicates it.  Record (never fail on) whether the
-    # three calls still appear in the replicated order, so that a reader of the evidence knows.
-    try:
-        from verifkit import REPO
-        src = open(os.path.join(REPO, "control", "control_plane.go"), encoding="utf-8").read()
-        pins = ["outbound.NewDialerSelectionPolicyFromGroupParam(&group)",
-                "dialerSet.FilterAndAnnotate(group.Filter, group.FilterAnnotation)",
-                "outbound.NewDialerGroup(finalOption, group.Name, dialers, annos, *policy"]
-        pos = [src.find(p) for p in pins]
-        ctx.cov["control_plane_glue_as_replicated"] = all(p >= 0 for p in pos) and pos == sorted(pos)
-        if not ctx.cov["control_plane_glue_as_replicated"]:
-            ctx.say("NOTE C14: control_plane.go group loop no longer matches the sequence replicated by the harness "
-                    "(policy -> FilterAndAnnotate -> NewDialerGroup); re-audit c14Group in the harness")
-    except OSError:
-        ctx.cov["control_plane_glue_as_replicated"] = None
     stats = json.load(open(os.path.join(ctx.out, "c14.stats.json")))
-    ctx.samples = stats["samples"][:8] + [x[:400] for x in o[:2]]
+
+    # ------------------------------------------------------------------ B. package control: the real region
+    gen, how = extract_group_region(ctx)
+    ctx.cov["control_plane_region"] = how
+    if not gen:
+        ctx.say("TRANSLATOR-FAILED C14 group region:", how,
+                "- the pool/group region of NewControlPlane can no longer be located; adapt extract_group_region")
+        return 2
+    genfile = os.path.join(ctx.out, "c14_gen_test.go")
+    open(genfile, "w").write(open(os.path.join(hov, "component/outbound/c14_gen_test.go")).read()
+                             .replace("package outbound", "package control", 1))
+    extra = {
+        os.path.join(REPO, "control", "zz_verif_c14_region.go"): gen,
+        os.path.join(REPO, "component", "outbound", "zz_verif_c14_access.go"): os.path.join(hov, "component/outbound/c14_access.go"),
+    }
+    binc = ctx.go_test_build("control", ["control/c14_test.go", genfile], "c14ctl", extra_overlay=extra)
+    if not binc:
+        return 2
+    rc, out = ctx.run_harness(binc, "TestVerifC14Ctl")
+    if rc != 0 or not os.path.exists(os.path.join(ctx.out, "c14ctl.ops")):
+        ctx.say("HARNESS-FAILED", out[-3000:])
+        return 2
+    co, ci, cs = compare_stream(ctx, "c14ctl", report, stricter)
+    n_ctl = n_pool_checked = 0
+    for k, (op, im) in enumerate(zip(co, ci)):
+        sd = side_dict(cs[k]) if k < len(cs) else {}
+        n_ctl += 1
+        distinct.add(op)
+        if im.startswith("crash:"):
+            report("crash", f"real control-plane region panicked: {im[:200]}", {"op": op, "impl": im})
+            continue
+        if sd.get("pool", "ok") != "ok":
+            report("pool", "pool built by NewDialerSetFromLinksContext differs from the subscriptions written (%s)" % sd.get("pool"),
+                   {"op": op, "impl": im, "side": cs[k]})
+        else:
+            n_pool_checked += 1
+        if sd.get("parserchanged", "-") != "-":
+            report("parser", "config parser delivered another definition than the one written: "
+                   + bytes.fromhex(sd["parserchanged"][1:]).decode("utf-8", "replace"), {"op": op, "impl": im})
+        if sd.get("valid") == "false" and im.startswith("ok "):
+            report("invalid-accepted", "invalid filter/annotation accepted silently by the control-plane region (%s)" % im[:200],
+                   {"op": op, "impl": im})
+    cstats = json.load(open(os.path.join(ctx.out, "c14ctl.stats.json")))
+
+    # ------------------------------------------------------------------ generator guards
+    dead = [k for k in GUARD_OUTBOUND if not stats["counters"].get(k)] + \
+           ["ctl:" + k for k in GUARD_CTL if not cstats["counters"].get(k)]
+    if dead:
+        ctx.say("GENERATOR-DEGENERATE C14: discrimination counter(s) at 0:", ", ".join(dead))
+        return 2
+    if stricter:
+        ctx.say(f"NOTE C14: the implementation rejects {len(stricter)} definition(s) the model accepts only by "
+                "leniency (negated/parameterised parameterless policy, or fixed(i) out of range): stricter than the "
+                "model, in the direction of the property; update Model.lean (parsePolicy / buildGroup) to the new code")
+    ctx.samples = stats["samples"][:6] + cstats["samples"][:3] + [x[:300] for x in o[:1]]
     ctx.cov["input_distribution"] = stats["counters"]
+    ctx.cov["input_distribution_control_plane_region"] = cstats["counters"]
+    ctx.cov["discrimination"] = {k: v for k, v in stats["counters"].items() if k.startswith("discrim.")}
+    ctx.cov["discrimination_control_plane_region"] = {k: v for k, v in cstats["counters"].items() if k.startswith("discrim.")}
     ctx.cov["fa_ops"] = n_fa
     ctx.cov["fa_ops_invalid_definition"] = n_invalid
+    ctx.cov["control_plane_region_ops"] = n_ctl
+    ctx.cov["control_plane_region_ops_pool_as_written"] = n_pool_checked
+    ctx.cov["stricter_than_model_in_lenient_zone"] = len(stricter)
     ctx.cov["disagreements_by_kind"] = budget
     ctx.assumptions = [
-        "pools of 0..14 nodes, definitions of 0..6 lines x 1..3 conditions x 0..3 values, generated (seeded); "
-        "about two thirds of the definitions reach the code through the real config parser, the rest are built as structs "
-        "(values the config syntax cannot express, odd policy types, length-mismatch guard)",
+        "pools of 0..14 nodes (1.5 % of them 64..600 nodes), definitions of 0..12 lines x 0..5 conditions x 0..6 values, "
+        "generated (seeded); about two thirds of the definitions reach the code through the real config parser, the "
+        "rest are built as structs (values the config syntax cannot express, odd policy types, length-mismatch guard)",
+        "error answers are compared as `configuration error` only (class/wording/precedence agreement is recorded in "
+        "coverage.error_class_agreement, not enforced)",
     ]
     return ctx.finish(
         rule="ops = `fa` (pool, filter lines, annotations -> members with annotations | error) and `grp` (policy + the same -> "
-             "group members, fixed(i) selection | error); one op is one (pool, group definition) pair; the regexp2 / "
-             "ParseDuration results the op needs travel with it; distinct_nontrivial counts distinct `fa` ops",
-        evaluations=len(o), distinct=len(distinct))
+             "group members, fixed(i) selection under every network type | error); stream c14 = hand-made pools in package "
+             "outbound, stream c14ctl = pools written as subscription links and groups built by the verbatim NewControlPlane "
+             "region; one op is one (pool, group definition) pair; the regexp2 / ParseDuration results the op needs travel "
+             "with it; distinct_nontrivial counts distinct `fa` + control-plane `grp` ops",
+        evaluations=len(o) + len(co), distinct=len(distinct))
